@@ -131,7 +131,9 @@ func (s *session) recover() (err error) {
 		if os.IsNotExist(err) {
 			// Don't return os.ErrNotExist if the underlying storage contains
 			// other files that belong to LevelDB. So the DB won't get trashed.
-			if fds, _ := s.stor.List(storage.TypeAll); len(fds) > 0 {
+			// Only journals and tables hold data: a manifest that never
+			// became current (a crash during the first Open) holds none.
+			if fds, _ := s.stor.List(storage.TypeJournal | storage.TypeTable); len(fds) > 0 {
 				err = &errors.ErrCorrupted{Err: errors.New("database entry point either missing or corrupted")}
 			}
 		}
